@@ -21,6 +21,7 @@ import Proofs.LineLevel
 import Proofs.RoundTrip
 import Proofs.ValueTie
 import Proofs.ExportText
+import Proofs.FlowTie
 
 namespace Jl.C04
 open Jl Jl.Value Cast CastTyped
@@ -218,5 +219,28 @@ theorem text_route_differs_from_importer_route :
     jlLine ExportText.Swallowed.env [] ExportText.Swallowed.to ExportText.Swallowed.line =
       .ok (ExportText.Swallowed.line ++ [0x0A], none) :=
   ⟨ExportText.Swallowed.routes_differ.1, ExportText.Swallowed.routes_differ.2.1⟩
+
+
+/-! ### The template builders are the source's (Proofs/FlowTie) -/
+
+/-- Every `With<Format>`, `WithMapped<Format>` and `With` of `template.go`, as written today,
+    declares the column the model's `withCol` declares: the format the method is named after (or
+    given), the raw type given (or none). -/
+theorem builders_are_the_source :
+    (∀ (env : Value.Env) (f : Format), f ≠ .bad → ∀ (t : Template.Tmpl) (name : Bytes)
+        (fp : Format) (tp : Ty) (sub : Template.Tmpl),
+      FlowTie.runBuilder env ("With" ++ f.goName) t name fp tp sub =
+        some (.ok (Template.withCol t name f .none))) ∧
+    (∀ (ext : Ext) (f : Format), f ≠ .bad → f ≠ .hidden → ∀ (t : Template.Tmpl) (name : Bytes)
+        (fp : Format) (typ : Ty) (sub : Template.Tmpl),
+      FlowTie.runBuilder ⟨genTables, ext⟩ ("WithMapped" ++ f.goName) t name fp typ sub =
+        some (.ok (Template.withCol t name f typ))) ∧
+    (∀ (ext : Ext) (t : Template.Tmpl) (name : Bytes) (f : Format) (typ : Ty)
+        (sub : Template.Tmpl),
+      FlowTie.runBuilder ⟨genTables, ext⟩ "With" t name f typ sub =
+        some (.ok (Template.withCol t name f typ))) :=
+  ⟨fun env f hf t name fp tp sub => FlowTie.plain_builder_is_withCol env f hf t name fp tp sub,
+   fun ext f hf hh t name fp typ sub => FlowTie.mapped_builder_is_withCol ext f hf hh t name fp typ sub,
+   FlowTie.with_is_withCol⟩
 
 end Jl.C04
